@@ -231,6 +231,9 @@ var microQueries = []struct{ sql, want string }{
 	{`SELECT s1.a FROM t AS s1 INNER ANY JOIN (SELECT a FROM u) AS s2 ON s1.a = s2.a ORDER BY s1.a`, `1;3`},
 	{`SELECT a FROM (SELECT a FROM t ORDER BY a DESC LIMIT 3) ORDER BY a LIMIT 1`, `2`},
 	{`SELECT toStartOfDay(toDateTime(1709287200)), toDate(toDateTime(1709287200)), FROM_UNIXTIME(intDiv(1709287200000000000, 1000000000))`, `'2024-03-01 00:00:00'|'2024-03-01'|'2024-03-01 10:00:00'`},
+	// extractAllGroups*: groups numbered by opening parenthesis like RE2 (unnamed ones count, non-capturing ones do not);
+	// a quantified group reports its last iteration; a group that did not participate is ''
+	{`SELECT extractAllGroupsHorizontal('n1:g2aa g3bb', '(n1:(g2[a-z]+)) (g3[a-z]+)'), extractAllGroupsHorizontal('g1aa g2bb', '(?:g1[a-z]+) (g2[a-z]+)'), extractAllGroupsHorizontal('n1:g2a;g2b;', '(n1:(g2[a-z]+;){2})'), extractAllGroupsHorizontal('<g2bb>', '(g1[a-z]+)|(g2[a-z]+)'), extractAllGroupsHorizontal('ab', '(?i)(A)(?:b)')`, `[['n1:g2aa'],['g2aa'],['g3bb']]|[['g2bb']]|[['n1:g2a;g2b;'],['g2b;']]|[[''],['g2bb']]|[['a']]`},
 	{`SELECT toDate('2024-03-01') + INTERVAL '1 day', toDate('2024-03-01') - INTERVAL 1 DAY, toDateTime('2024-03-01 00:00:00') + INTERVAL 1 HOUR`, `'2024-03-02'|'2024-02-29'|'2024-03-01 01:00:00'`},
 }
 
